@@ -473,6 +473,7 @@ func (s *session) visitNode(sprint *sprint, run flows.Run, node flows.Node, trig
 
 			// check if this action has errored the run
 			if run.Status() == flows.RunStatusFailed {
+				s.pushedFlow = nil // a flow pushed by an earlier action on this node is not entered by a failed run
 				return step, nil, "", nil
 			}
 		}
